@@ -50,6 +50,9 @@ def run(ck):
     if lib is None:
         return
     sk = skeleton.Skeleton(ck, lib)
+    # the meaning of the parser combinators the skeleton is built from, read from their own bodies
+    import primitives
+    primitives.check(ck, lib, sk, "C11-PR")
     # ---- W
     ws = bytecls.denote_fn(lib, P + "is_whitespace")
     ck.judge(ws == WS, "C11-W", "is_whitespace:denotation", "is_whitespace = %s" % bytecls.show_set(ws),
